@@ -13,6 +13,7 @@ Oracle reproduction on the real code: `o_heat.units` (site 'Rod1D:robin-units').
 -/
 import EPV.Lemmas.HeatSeries
 import EPV.Gen.RodModesGen
+import EPV.Lemmas.Bridge.RodModesGen
 import EPV.Tactics
 
 set_option linter.all false
@@ -51,8 +52,9 @@ theorem finding_robin_coefficient_zero_data (q : RodModesGen.P) (hTL : q.TL = 0)
       / ((-2 * q.alpha1 * (q.beta1 / q.L) * q.mu + 2 * ((q.beta1 / q.L) ^ 2 * q.mu ^ 2 + q.alpha1 ^ 2) * q.mu
         + 2 * q.alpha1 * (q.beta1 / q.L) * q.mu * Real.cos (2 * q.mu)
         + ((q.beta1 / q.L) ^ 2 * q.mu ^ 2 - q.alpha1 ^ 2) * Real.sin (2 * q.mu)) / (4 * q.alpha1 ^ 2 * (q.mu / q.L))) := by
-    simp only [epv_tree, epv_cond, hα, hn, if_false, RodModesGen.L2.Bn, hTL, hTR]
-    ring
+    -- through the bridge (no leaf number, no shape of the traced coefficient)
+    rw [Bridge.rodModesGen_Bn_ne q hα hn, hTL, hTR]
+    heat_eq
   rw [hB]
   have h1 : q.beta1 / q.L * q.L / q.alpha1 * Real.sin q.mu ≠ 0 := by
     have : q.beta1 / q.L * q.L = q.beta1 := by field_simp
